@@ -14,11 +14,13 @@ import (
 	"errors"
 	"fmt"
 	"io"
+	"net"
 	"reflect"
 	"sort"
 	"strings"
 	"testing"
 
+	"github.com/goplus/xgo/x/fakenet"
 	"github.com/goplus/xgo/x/jsonrpc2"
 	"github.com/goplus/xgo/zsim/simrt"
 	"github.com/goplus/xgo/zsim/simrt/harn"
@@ -94,6 +96,7 @@ type c39run struct {
 	raw       bool // endpoint B is a scripted raw peer instead of a real connection
 	rawScript []int
 	rawp      *rawPeer
+	viaFakenet bool // both connections run over x/fakenet conns whose underlying reads ignore Close (the stdio deployment)
 	second    int // >0: a second client dials the same server and makes that many calls
 	accepted  int
 }
@@ -267,6 +270,7 @@ func (c39) NewRun(plan *simrt.Source, job *harn.Job) harn.Run {
 	if plan.Chance(250) {
 		r.second = 1 + plan.Draw(3)
 	}
+	r.viaFakenet = plan.Chance(200)
 	// raw-peer configuration: only A is a real connection
 	r.raw = plan.Chance(200)
 	if v, ok := job.Knobs["raw"]; ok {
@@ -287,6 +291,9 @@ func (c39) NewRun(plan *simrt.Source, job *harn.Job) harn.Run {
 			r.rawScript = append(r.rawScript, plan.Draw(6))
 		}
 		r.net.Desc = fmt.Sprintf("RAW PEER script=%v cap=%d A=%+v", r.rawScript, r.net.Cap, r.net.A)
+	}
+	if r.viaFakenet && !r.raw {
+		r.net.Desc += " + transport wrapped in x/fakenet over streams whose Read ignores Close"
 	}
 	if r.second > 0 {
 		r.net.Desc += fmt.Sprintf(" + second client making %d calls on its own connection to the same server", r.second)
@@ -347,6 +354,7 @@ func (r *c39run) Extra() map[string]int    { return r.extra }
 type listener struct {
 	r       *c39run
 	pending []*simnet.End
+	fakeB   []net.Conn
 	next    int // index of the endpoint pair used by the next Dial (0: A/B, 2: C/D)
 	closed  bool
 	w       simrt.WaitList
@@ -359,6 +367,11 @@ func (l *listener) Accept(ctx context.Context) (io.ReadWriteCloser, error) {
 		if len(l.pending) > 0 {
 			e := l.pending[0]
 			l.pending = l.pending[1:]
+			if len(l.fakeB) > 0 {
+				c := l.fakeB[0]
+				l.fakeB = l.fakeB[1:]
+				return c, nil
+			}
 			return e, nil
 		}
 		if l.closed {
@@ -385,10 +398,29 @@ func (l *listener) Dial(ctx context.Context) (io.ReadWriteCloser, error) {
 		a.F, b.F = l.r.net.A, l.r.net.B
 	}
 	l.r.eps[i].end, l.r.eps[i+1].end = a, b
+	if l.r.viaFakenet {
+		a.StdinLike, b.StdinLike = true, true
+		l.fakeB = append(l.fakeB, fakenet.NewConn(b.Name, rdOnly{b}, wrOnly{b}))
+		l.pending = append(l.pending, b)
+		l.w.WakeAll(simrt.Active())
+		return fakenet.NewConn(a.Name, rdOnly{a}, wrOnly{a}), nil
+	}
 	l.pending = append(l.pending, b)
 	l.w.WakeAll(simrt.Active())
 	return a, nil
 }
+
+// rdOnly and wrOnly present one pipe end as the separate input and output
+// streams that fakenet.NewConn takes (like os.Stdin and os.Stdout).
+type rdOnly struct{ e *simnet.End }
+
+func (r rdOnly) Read(b []byte) (int, error) { return r.e.Read(b) }
+func (r rdOnly) Close() error               { return r.e.Close() }
+
+type wrOnly struct{ e *simnet.End }
+
+func (w wrOnly) Write(b []byte) (int, error) { return w.e.Write(b) }
+func (w wrOnly) Close() error                { w.e.Close(); return nil }
 
 // --- recording framer -----------------------------------------------------------
 
